@@ -684,6 +684,43 @@ func c18(p *core.Program, r *core.Report) {
 		}
 		r.Check(rec, r2, short(fn)+"/recursion", p.Pos(fn.Pos()), true, "recurses into val.Index(i) for every element", "the handler does not recurse into every element of nested coordinate arrays")
 	}
+	const r2n = "geojson-nil-coordinate-null"
+	r.Rule(r2n, "every function of package geojson that walks a reflect.Value of slice kind by index (calls (reflect.Value).Len) does so only behind the false edge of (reflect.Value).IsNil on it: encoding/json writes a nil slice as null - the coordinate of an empty point inside a MultiPoint - and a digit-limited encoder that writes [] instead changes the structure of the document (and emits something this package's own decoder rejects)", 1)
+	{
+		n := 0
+		for _, fn := range pkgFuncs(p, rel) {
+			isRV := func(c ssa.CallInstruction, name string) bool {
+				o := eng.CalleeObj(c)
+				return o != nil && o.Name() == name && o.Pkg() != nil && o.Pkg().Path() == "reflect"
+			}
+			blocked := eng.EdgeSet{}
+			for _, b := range fn.Blocks {
+				ifi := eng.BlockIf(b)
+				if ifi == nil {
+					continue
+				}
+				cond, edge := ifi.Cond, 1
+				for {
+					u, ok := cond.(*ssa.UnOp)
+					if !ok || u.Op != token.NOT {
+						break
+					}
+					cond, edge = u.X, 1-edge
+				}
+				if c, ok := cond.(*ssa.Call); ok && isRV(c, "IsNil") {
+					blocked[[2]int{b.Index, edge}] = true
+				}
+			}
+			for _, c := range eng.Calls(fn) {
+				if !isRV(c, "Len") {
+					continue
+				}
+				n++
+				ok := len(blocked) > 0 && !eng.Reachable(fn.Blocks[0], blocked)[c.Block()]
+				r.Check(ok, r2n, fmt.Sprintf("%s/Len#%d", short(fn), n), p.Pos(c.Pos()), true, "the walk is behind `!val.IsNil()`", "the slice is walked at "+p.Pos(c.Pos())+" without asking whether it is nil: a nil coordinate is written as [] where encoding/json writes null")
+			}
+		}
+	}
 	const r3 = "geojson-handler-coverage"
 	r.Rule(r3, "in geojson.encode each of the six coordinate-bearing cases passes its Coords() value through every option's onFloat64Handler before json.Marshal; the bbox handler does the same with the bbox values and receives the full option list (so the two options compose in either order)", 7)
 	if fn := mustFn(p, r, r3, rel, "encode"); fn != nil {
